@@ -151,6 +151,7 @@ static void check_continue(void)
 		/* the discarding sub-parser: its transition table is the code's own business (the reference skipper is checked by
 		 * the scripted units); what the statement C12 demands of every step is stated here: it stays inside the skipper or
 		 * is back at the item level, performs no action, delivers no diagnostic, keeps no annotation pending */
+		if (in_tok == CFGT_COMMENT) CHECK("C15,C12", *p_state == in_state && g_nev == 0, "a comment between the tokens of a skipped item is transparent (same state, no action)");
 		CHECK("C12", *p_state == 0 || (*p_state >= 10 && *p_state <= 15), "while skipping an undeclared item the parser stays in the skipper or returns to the item level");
 		CHECK("C12", in_force != 10 || *p_state >= 10, "the discarding sub-parser of a skipped section never resumes normal parsing");
 		CHECK("C12,C15", in_state != 10 || *p_state == 10 || *p_comment == NULL || *p_comment == h_comment, "no new annotation is picked up while skipping");
@@ -335,6 +336,7 @@ void h_parse_step(void)
 			KFCHECK("C15-comment-token-only-in-name-state", "C15", 0, "a comment between two tokens inside an item never ends the parse");
 		} else if (in_state >= 10) {
 			/* the discarding sub-parser ended the activation: only the statement-level facts are demanded (see check_continue) */
+			CHECK("C15,C12", in_tok != CFGT_COMMENT, "a comment between the tokens of a skipped item never ends the parse");
 			CHECK("C12", rc == STATE_ERROR || (rc == STATE_CONTINUE && in_force == 10), "the skipper ends an activation only by rejecting or, in a skipped section, by handing back to its caller");
 			CHECK("C12,C06", rc != STATE_ERROR || g_diag >= 1, "a rejection while skipping is reported");
 			CHECK("C12", rc == STATE_ERROR || g_diag == 0, "handing back to the caller delivers no diagnostic");
